@@ -349,11 +349,11 @@ class AbstractPaths(ABC):
         """
 
         if path.exists(self._zip_path):
-            shutil.rmtree(self.output_path, ignore_errors=True)
-
             try:
                 try:
+                    # the archive is opened (and thereby validated) before the folder is removed
                     with zipfile.ZipFile(self._zip_path, "r") as f:
+                        shutil.rmtree(self.output_path, ignore_errors=True)
                         f.extractall(self.output_path)
                 except FileExistsError:
                     pass
